@@ -316,7 +316,7 @@ theorem step_cfg {t t' : T} {ev : Ev} (h : step t ev = .ok t') : t'.cfg = t.cfg 
 theorem init_inv {cfg : Cfg} {stks : List (List Problem.Wrapper)} {rootEnv : NewEnv} {t0 : T} (L : Nat)
     (hi : init cfg stks rootEnv = .ok t0) : Inv L t0 ∧ t0.cfg = cfg := by
   have ce := createDeme_effect hi
-  obtain ⟨old, d, hd, hf, _, _, hlev, hid, _⟩ := ce.demes
+  obtain ⟨old, d, hd, hf, _, _, _, hlev, hid, _⟩ := ce.demes
   have hold : old = [] := by cases hf; rfl
   refine ⟨⟨?_, ?_⟩, ce.cfg⟩
   · intro x hx
